@@ -249,6 +249,11 @@ impl Log {
     pub fn finish(mut self) {
         self.out.flush().unwrap();
     }
+    /// Marks the type about to be examined (flushed, so that a crash of the process can be attributed).
+    pub fn start(&mut self, id: &str, rust: &str) {
+        writeln!(self.out, "{}", json!({"ev": "start", "id": id, "rust": rust})).expect("event log write");
+        self.out.flush().expect("event log flush");
+    }
 }
 
 #[derive(Clone, Debug, Default)]
